@@ -126,23 +126,6 @@ def run_forced(b, script, save_at, *, clip=False, eps=1e-8, driver="save_at", re
     err = ForcedErr(script, rec)
     ctrl = ForcedCtrl(script)
     damp = b.cfg["damp"]
-    sol, truncated = None, False
-    try:
-        sol = _solve_natural(b, rs, err, ctrl, save_at, atol, rtol, dt0, clip, eps, driver, damp, budget)
-    except StopRun:
-        truncated = True
-    r = Run()
-    r.sol, r.rs, r.err, r.ctrl, r.rec, r.truncated = sol, rs, err, ctrl, rec, truncated
-    r.accepted = [(t, dt) for (t, dt, seen, true) in err.log if seen >= 1.0]
-    r.attempts = len(err.log)
-    return r
-
-
-class StopRun(Exception):
-    """Raised by the estimator proxy to end a simulated run early (enough attempts recorded)."""
-
-
-def _solve_natural(b, rs, err, ctrl, save_at, atol, rtol, dt0, clip, eps, driver, damp, budget):
     with flowseam.stepped(budget=budget):
         if driver == "save_at":
             solve = ivpsolve.solve_adaptive_save_at(solver=rs, error=err, control=ctrl, clip_dt=clip,
